@@ -209,6 +209,8 @@ def cop(o):
             cstr(o["name"]), cN(o["index"]), cstr(o["format"]), clist(cstr(p) for p in o["parse"]), cstr(o["up"]),
             cstr(o["down"]), clist(cstr(n) for n in o["names"]), copt(o.get("digits"), cN), copt(o.get("round"), cbool),
             copt(o.get("rm"), cbool))
+    if k == "set_date_rule":
+        return "(OSetDateRule %s %s)" % (cstr(o["lang"]), clist(cstr(p) for p in o["patterns"]))
     raise ValueError("unknown op " + k)
 
 
